@@ -2,6 +2,7 @@
 """Archive confirmed seeded regressions from /tmp/seedout/<id>/ into /verif/seeded/<id>/ (patch.diff, demo, meta.json)
 merging every /tmp/seedout/<id>.result*.json (later results override earlier per check)."""
 import glob, json, os, shutil, sys
+NOTES = json.load(open('/verif/tools/seednotes.json'))
 for d in sorted(glob.glob('/tmp/seedout/C*/')):
     name = os.path.basename(d.rstrip('/'))
     results = sorted(glob.glob('/tmp/seedout/%s.result*.json' % name))
@@ -36,6 +37,8 @@ for d in sorted(glob.glob('/tmp/seedout/C*/')):
         **conf}
     meta['checks'] = checks
     meta['check_history'] = history
+    if name in NOTES:
+        meta['lead_note'] = NOTES[name]
     meta['caught_by'] = sorted(c for c, v in checks.items() if v['verdict'] == 'caught')
     json.dump(meta, open(out + 'meta.json', 'w'), indent=1)
     print(name, conf, meta['caught_by'])
